@@ -395,6 +395,10 @@ class SigmaDetection(ParentChainMixin):
                 )
             if len(detection_items) == 1:  # Only one detection item? Return it as result.
                 return detection_items[0]
+            elif self.item_linking is ConditionOR and detection_items_types == {dict}:
+                # OR-linked detection items (e.g. result of a one-to-many field mapping) have to be
+                # expressed as list of maps, merging them into one map would link them with AND.
+                return detection_items
             else:  # More than one detection item, it depends now on the types
                 if dict in detection_items_types and len(detection_items_types) > 1:
                     # Merging dicts with other types isn't possibly, at least not in a simple way.
